@@ -27,6 +27,8 @@ inductive Err
   | ioError         -- any other read error of the connection
 deriving DecidableEq, Repr, Inhabited
 
+deriving instance DecidableEq for Except
+
 def be16 (a b : Nat) : Nat := a * 256 + b
 
 /-- Go `b[i:j]` on data that is long enough. -/
